@@ -11,7 +11,7 @@ let hexval c = match c with
   | _ -> failwith "bad hex digit"
 
 (* bits, most significant first, of a hex string *)
-let positive_of_hex (s : string) : positive option =
+let positive_of_hex (s : String.t) : positive option =
   let acc = ref None in
   String.iter (fun c ->
     let v = hexval c in
@@ -23,14 +23,14 @@ let positive_of_hex (s : string) : positive option =
     done) s;
   !acc
 
-let z_of_token (t : string) : z =
+let z_of_token (t : String.t) : z =
   let neg = String.length t > 0 && t.[0] = '-' in
   let body = if neg then String.sub t 1 (String.length t - 1) else t in
   match positive_of_hex body with
   | None -> Z0
   | Some p -> if neg then Zneg p else Zpos p
 
-let hex_of_positive (p : positive) : string =
+let hex_of_positive (p : positive) : String.t =
   (* collect bits least significant first *)
   let rec bits p acc = match p with
     | XH -> true :: acc
@@ -54,7 +54,7 @@ let token_of_z = function
   | Zpos p -> hex_of_positive p
   | Zneg p -> "-" ^ hex_of_positive p
 
-let split_ws (s : string) : string list =
+let split_ws (s : String.t) : String.t list =
   List.filter (fun t -> t <> "") (String.split_on_char ' ' (String.trim s))
 
 let () =
